@@ -8,7 +8,7 @@ META = {
     "engine": "AEProduct(AELexer x AEHTMLTok/AEJSLex/AECSSLex)+AEContext+AEConfine",
     "technique": "TLA+ product automaton of an implementation-shaped model of lexer.scan and a reference WHATWG-HTML/JavaScript/CSS/JSON tokenizer, explored by TLC over a fragment alphabet to the fix-point of the region where the two machines are in step (documents of unbounded length) plus a bounded number of fragments behind every root cause; the shortest document of every product state is built by the real code with a show at every fragment boundary (real ast.Show contexts judged against the reference slots by TLC: candidates and root causes) and every transition out of a synchronised state is replayed against the real lexer; holes of every (context, slot, root cause) class are rendered with a context-breaking value dictionary, and TLC tokenises every rendered output with the reference tokenizers and compares its structure signature with that of the benign rendering",
     "level": "model_checking",
-    "level_text": "MC_AEProduct: TLC explores the product of AELexer (lexer.scan transcribed branch by branch) and the reference tokenizers; quick: HTML files, 16 fragments, unbounded behind a root cause; thorough: HTML files with 63 fragments (2 fragments behind a root cause) and 26 fragments (5 behind), JS, CSS and JSON files with 20/16/12 fragments. States that neither agree nor are confinement-compatible are breaking edges (diagnostic). Context level: the documents form a prefix tree; every node is built by the real lexer with `{{ x }}` appended and Trace_AEContext steps the reference over the tree and computes Agree / Compatible / root cause per node; the context AELexer predicts after every transition out of a synchronised state is compared with the real one (model drift; drifted documents are continued by two more fragments). Confinement level (the verdict): for every reachable (context, URL, slot, attribute kind, root cause) class one hole at the end of a document and up to 2 (quick) / 6 (thorough) holes in front of different next fragments are rendered with ~110 values (strings, numbers, booleans, Stringer, error, slices, maps, structs; the trusted types as negative control), directly and through a macro, an in-place macro, an imported macro and rendered .html/.txt files; Trace_AEConfine requires Signature(output with value) = Signature(output with the benign value of the same type and shape).",
+    "level_text": "MC_AEProduct: TLC explores the product of AELexer (lexer.scan transcribed branch by branch) and the reference tokenizers; quick: HTML files, 16 fragments, unbounded behind a root cause; thorough: HTML files with 63 fragments (2 fragments behind a root cause) and 26 fragments (4 behind, product states behind different classes of root causes kept apart), JS, CSS and JSON files with 20/16/12 fragments. States that neither agree nor are confinement-compatible are breaking edges (diagnostic). Context level: the documents form a prefix tree; every node is built by the real lexer with `{{ x }}` appended and Trace_AEContext steps the reference over the tree and computes Agree / Compatible / root cause per node; the context AELexer predicts after every transition out of a synchronised state is compared with the real one (model drift; drifted documents are continued by two more fragments). Confinement level (the verdict): for every reachable (context, URL, slot, attribute kind, root cause) class one hole at the end of a document and up to 2 (quick) / 6 (thorough) holes in front of different next fragments are rendered with ~110 values (strings, numbers, booleans, Stringer, error, slices, maps, structs; the trusted types as negative control), directly and through a macro, an in-place macro, an imported macro and rendered .html/.txt files; Trace_AEConfine requires Signature(output with value) = Signature(output with the benign value of the same type and shape).",
     "level_note": "Trusted: TLC, the Json module, the reference tokenizers themselves (WHATWG tokenizer with the tree builder's tokenizer switches, without foreign content and noscript; character references are decoded only inside event-handler and style attribute values (numeric and amp/lt/gt/quot/apos); JavaScript lexical grammar with the usual regex heuristic; css-syntax token boundaries), the driver (concretises documents, calls BuildTemplate/Run, reads ast.Show.Context in ExpandedTransformer, logs). URL structure inside URL attributes is not part of the signature; Markdown files are not generated; JS/CSS/JSON files only in the thorough tier; the {% macro %} context stack of the lexer is exercised only through the in-place macro at the hole.",
     "design_ref": "7/C06",
 }
@@ -129,13 +129,13 @@ def model_check(ctx):
     """quick: 16 fragments, exploration behind a root cause unbounded (MaxDiv = MaxDoc);
        thorough: all 63 fragments with 2 fragments behind a root cause (broad) and 26 fragments with 5 (deep)."""
     runs = ctx.pick([("mc", QUICK_FRAGS, 0, "HTML")],
-                    [("mc_broad", FULL_FRAGS, 2, "HTML"), ("mc_deep", DEEP_FRAGS, 5, "HTML"),
+                    [("mc_broad", FULL_FRAGS, 2, "HTML"), ("mc_deep", DEEP_FRAGS, 4, "HTML"),
                      ("mc_js", JS_FRAGS, 4, "JS"), ("mc_css", CSS_FRAGS, 4, "CSS"), ("mc_json", JSON_FRAGS, 4, "JSON")])
 
     def one(run):
         step, use, maxdiv, fmt = run
         wd = ctx.stage(step, FAMS)
-        rig.write_cfg(wd / "MC_AEProduct.cfg", constants={"Use": set(use), "MaxDoc": 40, "MaxDiv": maxdiv, "Fmt": fmt}, invariants=["BelowBound", "PrintSucc"], view="View")
+        rig.write_cfg(wd / "MC_AEProduct.cfg", constants={"Use": set(use), "MaxDoc": 40, "MaxDiv": maxdiv, "Fmt": fmt, "RootInView": step != "mc"}, invariants=["BelowBound", "PrintSucc"], view="View")
         r = ctx.tlc(wd, "MC_AEProduct", workers=(max(4, rig.NCPU // 2) if fmt == "HTML" else 2), timeout=2400, coverage=False, dump=[str(wd / "states.dump")])
         if not r.ok:
             raise Infra(f"MC_AEProduct failed (fix-point not reached below MaxDoc, or TLC error): {wd}/MC_AEProduct.out\n" + rig.tail(r.out, 25))
